@@ -74,7 +74,9 @@ async def _async_zeroconf_get_service_info(
         ) from exc
     finally:
         if not had_instance:
-            await zeroconf_manager.async_close()
+            # Shield the close so a cancellation that arrives while the
+            # instance we created is being closed cannot leave it open
+            await asyncio.shield(zeroconf_manager.async_close())
     return info
 
 
